@@ -153,6 +153,10 @@ func (e *Env) lookupID(name string) (Val, bool) {
 				return v, true
 			}
 		}
+		// inside a loop invariant there is no return value: `result` may then name a local variable of that name
+		if e.locals != nil && len(e.locals.localsByName["result"]) > 0 {
+			break
+		}
 		e.fail("result not available here")
 		return Val{"0", SInt, nil}, true
 	case "$i":
